@@ -103,6 +103,13 @@ class Engine:
         if r.returncode == 3:
             hang = open(os.path.join(outdir, "HANG.json")).read()
             return {"hang": json.loads(hang)}
+        if r.returncode in (4, -6):
+            # the process was aborted by the code under test (e.g. a failed allocation): which scenario?
+            idx = [int(x) for x in open(os.path.join(outdir, "ABORT.txt")).read().split() if x.strip().isdigit()]
+            lines = open(scen).read().splitlines()
+            if idx and 0 < idx[0] <= len(lines):
+                return {"abort": json.loads(lines[idx[0] - 1]), "msg": r.stdout[-300:]}
+            raise ToolError("harness aborted and the scenario could not be identified: " + r.stdout[-500:])
         if r.returncode != 0:
             print(r.stdout[-3000:])
             raise ToolError("harness run failed (rc=%d)" % r.returncode)
@@ -154,6 +161,8 @@ class Engine:
                 if ev == "reset":
                     s = e.get("s", {})
                     self.cov["scenario:%s/%s" % (s.get("framing", e.get("kind", "-")), s.get("faultKind", "-"))] += 1
+                elif ev == "hostile":
+                    self.cov["hostile:%s/%s" % (e.get("kind"), e.get("res"))] += 1
                 elif ev == "head":
                     self.cov["head:%s/%s" % (e.get("res"), e.get("kind", ""))] += 1
                 elif ev == "ret":
@@ -188,9 +197,10 @@ class Engine:
         self.n_scen += n
         outdir = os.path.join(self.work, "tr-%d" % idx)
         res = self.run_harness(fam["runner"], scen, outdir, threads=fam.get("threads", 16), budget_ms=fam.get("budget_ms", 30000), which=which)
-        if "hang" in res:
-            sc = res["hang"]
-            self.viol.append({"line": 0, "id": sc.get("id", "?"), "property": self.pid, "guard": "G05_terminates(hang)", "detail": "", "trace": "", "scenario": sc})
+        if "hang" in res or "abort" in res:
+            sc = res.get("hang") or res.get("abort")
+            self.viol.append({"line": 0, "id": sc.get("id", "?"), "property": self.pid,
+                              "guard": "G05_terminates(hang)" if "hang" in res else "G05_noAbort(process aborted)", "detail": res.get("msg", "").strip()[-160:], "trace": "", "scenario": sc})
             return
         self.scan_traces(outdir)
         before = len(self.viol)
@@ -335,7 +345,7 @@ class Engine:
         self.scen_by_id[rp["scenario"].get("id", "0")] = rp["scenario"]
         outdir = os.path.join(self.work, "tr")
         res = self.run_harness(rp.get("runner", "exchange"), scen, outdir, threads=1, which=crate)
-        if "hang" in res:
+        if "hang" in res or "abort" in res:
             print("VIOLATION property=%s replay=%s" % (self.pid, path))
             return 1
         self.validate_all(rp.get("trace_spec", "Trace_Exchange"), outdir)
